@@ -1434,8 +1434,17 @@ func (e *Engine) staticTypeOfSpecExpr(spec *FuncSpec, x *Expr) types.Type {
 				}
 			}
 		}
-		if T, ok := e.externParamTypes[spec.Key+"/"+x.Op]; ok {
-			return T
+		for i, n := range spec.ParamNames {
+			if n == x.Op && i < len(spec.ParamTypes) && spec.ParamTypes[i] != "" {
+				var T types.Type
+				func() {
+					defer func() { recover() }()
+					T = e.resolveType(spec.ParamTypes[i], spec.PkgName)
+				}()
+				if T != nil {
+					return T
+				}
+			}
 		}
 	case ESel:
 		T := e.staticTypeOfSpecExpr(spec, x.Args[0])
@@ -1473,6 +1482,9 @@ func (st *State) assumeGlobalInvs() {
 			defer func() {
 				if r := recover(); r != nil {
 					if ee, ok := r.(*EngineError); ok {
+						if strings.Contains(ee.msg, "unknown identifier") {
+							return // the package is not loaded: nothing under verification can refer to it
+						}
 						panic(engineErr("global invariant %q: %s", g.Text, ee.msg))
 					}
 					panic(r)
